@@ -855,10 +855,11 @@ impl BackupManager {
                 all_wal_segments
                     .into_iter()
                     .filter(|(name, path)| match parse_wal_file_id(name) {
-                        Some(file_id) => {
-                            file_id > parent_max
-                                || (file_id == parent_max && modified_since_parent(path))
-                        }
+                        // The segment being appended to is not always the one with the highest
+                        // id: after a rotation that failed half-way a newer, empty segment file
+                        // exists while the writer carries on in the older one. Every segment
+                        // written since the parent backup has to be shipped, whatever its id.
+                        Some(file_id) => file_id > parent_max || modified_since_parent(path),
                         None => modified_since_parent(path),
                     })
                     .collect()
